@@ -94,9 +94,12 @@ async fn run_case(id: String, kind: String, mode: String, ops: Vec<String>) -> S
         if let Ok(f) = std::env::var("WX_DEBUG_LOST") { use std::io::Write as _; if let Ok(mut h) = std::fs::OpenOptions::new().create(true).append(true).open(f) { let _ = h.write_all(line.as_bytes()); } }
     }
     let st = if main.is_finished() { "ended" } else { "running" };
+    // the counters are read BEFORE the instance is torn down: `abort()` only takes effect at the task's next poll, and removing the tree
+    // under a still-running watcher produces events that the filter accepts and nobody will ever be handed (seen on a loaded machine)
+    let line = format!("{} n={}/{} rej={} err={}/{} empty={} main={}", segs.join("|"), nev.load(SeqCst), counters.accepted.load(SeqCst), counters.rejected.load(SeqCst), counters.errored.load(SeqCst), nerr.load(SeqCst), nempty.load(SeqCst), st);
     main.abort();
     let _ = std::fs::remove_dir_all(&root);
-    format!("{} n={}/{} rej={} err={}/{} empty={} main={}", segs.join("|"), nev.load(SeqCst), counters.accepted.load(SeqCst), counters.rejected.load(SeqCst), counters.errored.load(SeqCst), nerr.load(SeqCst), nempty.load(SeqCst), st)
+    line
 }
 
 fn main() {
